@@ -187,6 +187,11 @@ def check(ctx, run):
     run.oblige("C05.R4", "value_at_risk: min / max / quantile((p-1/n)/(1-1/n)) with guards p<=1/n, p>1-1/n", ok, str(seen)[:300])
     if not ok:
         run.fail(Finding("C05.R4", fi.qualname, str(seen)[:300], "value at risk differs from the documented order statistic", file=str(prog.modules[fi.module].path), line=fi.node.lineno))
+    bad_dims = [(op, d) for op, d in A.dims_seen if d != 0]
+    run.oblige("C05.R4", "value_at_risk reduces along the requested dim on every branch", not bad_dims, str(A.dims_seen))
+    if bad_dims:
+        run.fail(Finding("C05.R4", fi.qualname, f"dims {sorted(set(bad_dims), key=str)}", "asked for dim=0, a branch reduces over another axis or over all elements: "
+                         "a sample with trailing dimensions collapses to one number", file=str(prog.modules[fi.module].path), line=fi.node.lineno))
     # ---- R5 / R6 quadratic CVaR
     qcvar(ctx, run)
     # ---- R7 losses and OCE, module wiring (target subtracted first, dim 0)
@@ -381,3 +386,49 @@ _check_c05 = check
 def check(ctx, run):  # noqa: F811
     _check_c05(ctx, run)
     default_target(ctx, run)
+    precision_rule(ctx, run)
+
+
+def precision_rule(ctx, run):
+    """R9: a target or a level given as a Python number is used at the precision of the sample.  `torch.as_tensor(target)` of a float is a
+    float32 tensor: subtracted from a float64 profit-loss it keeps the result float64 but the target was rounded to 24 bits first, so the
+    value is the risk measure of input - float32(target)."""
+    from ..precision import lossy
+    prog, interp = ctx.prog, ctx.interp
+    x = W.tensor("x")
+    tgt = W.fl("target")
+    run.require("C05.R9", 14)
+    mods = {"EntropicRiskMeasure": dict(a=W.fl("a")), "EntropicLoss": dict(a=W.fl("a")), "IsoelasticLoss": dict(a=W.fl("a")),
+            "ExpectedShortfall": dict(p=W.fl("p")), "QuadraticCVaR": dict(lam=W.fl("lam")), "OCE": dict(utility=Sym("u", ("callable",)), w=W.tensor("w"))}
+    for cls, attrs in mods.items():
+        if L + cls not in prog.classes:
+            raise AnalysisError(f"anchor vanished: {cls}")
+        for meth in ("forward", "cash"):
+            fi = prog.lookup_method(L + cls, meth)
+            if fi is None:
+                raise AnalysisError(f"anchor vanished: {cls}.{meth}")
+            try:
+                res = [r for r in interp.explore(fi, [x, tgt], {}, self_obj=Obj(L + cls, cls.lower(), dict(attrs)), max_paths=60) if not r["raises"]]
+            except Unsupported as ex:
+                raise AnalysisError(f"{cls}.{meth}: {ex}")
+            if not res:
+                raise AnalysisError(f"{cls}.{meth}: no analysable path with a scalar target")
+            bad = lossy(res, None)
+            run.oblige("C05.R9", f"{cls}.{meth}: scalar target and parameters keep the precision of the sample", not bad, "; ".join(bad) or "no Python float is packed into a default-dtype tensor")
+            if bad:
+                run.fail(Finding("C05.R9", fi.qualname, "; ".join(bad)[:300], "a Python float is rounded to float32 before it meets the (possibly float64) sample: "
+                                 "the value is the risk measure of another target / level", file=str(prog.modules[fi.module].path), line=fi.node.lineno))
+    for fn, kw in (("exp_utility", dict(a=W.fl("a"))), ("isoelastic_utility", dict(a=W.fl("a"))), ("entropic_risk_measure", dict(a=W.fl("a"))),
+                   ("expected_shortfall", dict(p=W.fl("p"), dim=0)), ("value_at_risk", dict(p=W.fl("p"), dim=0)), ("quadratic_cvar", dict(lam=W.fl("lam"), dim=0))):
+        fi = E.functional(ctx, fn)
+        try:
+            res = [r for r in interp.explore(fi, [], dict(input=x, **kw), max_paths=60) if not r["raises"]]
+        except Unsupported as ex:
+            raise AnalysisError(f"{fn}: {ex}")
+        if not res:
+            raise AnalysisError(f"{fn}: no analysable path")
+        bad = lossy(res, None)
+        run.oblige("C05.R9", f"{fn}: scalar parameters keep the precision of the sample", not bad, "; ".join(bad) or "no Python float is packed into a default-dtype tensor")
+        if bad:
+            run.fail(Finding("C05.R9", fi.qualname, "; ".join(bad)[:300], "a Python float parameter is rounded to float32 before it meets the sample",
+                             file=str(prog.modules[fi.module].path), line=fi.node.lineno))
